@@ -28,6 +28,9 @@ type c04Case struct {
 	REMBRaw        *[2]uint32 `json:",omitempty"`
 	BYEEmptyReason bool       `json:",omitempty"`
 	Inflate        int        `json:",omitempty"` // header count raised by this much (must be rejected)
+	// PadWords > 0: RFC 3550 padding on any packet type - P bit set, PadWords words appended
+	// (included in the length field), the last octet holds the number of padding octets.
+	PadWords int `json:",omitempty"`
 }
 
 func (c c04Case) encode(d m.Dialect) ([]byte, error) {
@@ -49,6 +52,20 @@ func (c c04Case) encode(d m.Dialect) ([]byte, error) {
 	}
 	if c.Inflate > 0 {
 		e.B[0] = e.B[0]&0xE0 | (e.B[0]&0x1f+byte(c.Inflate))&0x1f
+	}
+	if c.PadWords > 0 && e.B[0]&0x20 == 0 {
+		b := e.B
+		for i := 0; i < 4*c.PadWords; i++ {
+			b = append(b, c.PadFill)
+		}
+		b[len(b)-1] = byte(4 * c.PadWords)
+		b[0] |= 0x20
+		w := len(b)/4 - 1
+		if w > 0xFFFF {
+			return nil, m.ErrTooLarge
+		}
+		b[2], b[3] = byte(w>>8), byte(w)
+		return b, nil
 	}
 	return e.B, nil
 }
@@ -101,6 +118,9 @@ var subC04 = harness.NewSub("c04-decode-of-valid-encodings", func(c c04Case, hd 
 	if hd.Has("ccfb-one-metric-block") && ccfbHasOneMetricBlock(c.P) {
 		return nil
 	}
+	if c.PadWords > 0 && hd.Has("padding-not-honoured:"+string(c.P.Kind)) {
+		return nil // listed per packet type: the decoder does not honour RFC 3550 padding
+	}
 	enc, err := c.encode(d)
 	if err != nil {
 		return fmt.Errorf("GENERATOR BUG: reference cannot encode the variant: %v", err)
@@ -118,6 +138,11 @@ var subC04 = harness.NewSub("c04-decode-of-valid-encodings", func(c c04Case, hd 
 		return nil
 	}
 	want := expectC04(c.P, c, d)
+	if c.PadWords > 0 && c.P.Kind == m.KTWCC && len(enc) >= 4 && enc[0]&0x20 != 0 && !c.P.TWCC.Padding {
+		v := *c.P.TWCC // the decoded (caller-visible) header is the one on the wire
+		v.Padding, v.HdrLength = true, uint16(len(enc)/4-1)
+		want = m.Packet{Kind: m.KTWCC, TWCC: &v}
+	}
 	wrapRejected := hd.Has("ccfb-rejects-seq-wrap") && ccfbSpansWrap(c.P)
 	// the type's own decoder
 	got, derr := decodeDirect(c.P.Kind, enc)
@@ -170,11 +195,21 @@ func genC04Case(t *rapid.T, big bool) c04Case {
 		}
 		return out
 	}
-	hi := 11
+	hi := 13
 	if big {
-		hi = 12
+		hi = 14
 	}
 	switch rapid.IntRange(0, hi).Draw(t, "variant") {
+	case 12, 13:
+		// RFC 3550 section 6.4.1 padding, which any RTCP packet may carry
+		p := gen.Packet(t)
+		for p.Kind == m.KRAW || p.Kind == m.KAPP {
+			p = gen.Packet(t)
+		}
+		if p.Kind == m.KTWCC {
+			gen.FixTWCCHeader(p.TWCC, false)
+		}
+		return c04Case{P: p, Variant: "rfc3550-padding", PadWords: rapid.IntRange(1, 3).Draw(t, "padwords"), PadFill: rapid.SampledFrom([]byte{0, 0, 0xFF, 0x55}).Draw(t, "padfill")}
 	case 0:
 		// alternative TWCC chunkings of a status sequence, reserved symbol 3 included
 		s := gen.Statuses(t, 300)
@@ -239,7 +274,7 @@ func genC04Case(t *rapid.T, big bool) c04Case {
 		k := rapid.SampledFrom([]m.Kind{m.KSR, m.KRR, m.KSDES, m.KBYE}).Draw(t, "inflate.kind")
 		p := gen.PacketOf(t, k)
 		return c04Case{P: p, Variant: "count-inflated", Inflate: rapid.IntRange(1, 3).Draw(t, "inflate")}
-	case 12:
+	case 14:
 		// lists in frames of 64 KiB and more (the length field still fits)
 		switch rapid.IntRange(0, 2).Draw(t, "big.kind") {
 		case 0:
